@@ -1014,6 +1014,27 @@ def gen_ops(rng, ref, nops, bias_guards=True, focus=False, exotic=0.0, fill=0.0)
                 ops.append(op_text(flat[i].path + str(k), v))
                 mops.append(mop_text(i, k, v))
                 ref.send(i, k, v)
+    if fill and rng.random() < fill:
+        # one int array holds  x a a+d a+2d ...  with x not the predecessor of a: the printer must keep the second
+        # value of the run ("x a a+d ... b"; "x a ... b" would be read with the step x -> a) - the array loop's
+        # `prev` argument of rtosc_print_arg_val
+        arrs = [i for i, fp in enumerate(flat) if fp.leaf.kind == "ai" and fp.leaf.n >= 7 and ref.exists(i)]
+        if arrs:
+            i = rng.choice(arrs)
+            p = flat[i].leaf
+            lo = -128 if p.min is None else max(p.min, -128)
+            hi = 127 if p.max is None else min(p.max, 127)
+            d = rng.choice([1, 1, 2, 3, -1, -2])
+            span = abs(d) * (p.n - 2)
+            if hi - lo >= span + 1:
+                a = rng.randint(lo, hi - span) if d > 0 else rng.randint(lo + span, hi)
+                xs = [x for x in range(lo, hi + 1) if x != a - d and x != a]
+                vals = [rng.choice(xs)] + [a + d * j for j in range(p.n - 1)]
+                for k, x in enumerate(vals):
+                    v = ("i", x)
+                    ops.append(op_text(flat[i].path + str(k), v))
+                    mops.append(mop_text(i, k, v))
+                    ref.send(i, k, v)
     for n_op in range(nops):
         r = rng.random()
         if n_op < len(plan):
